@@ -370,26 +370,6 @@ def seqLex (st : SeqSt) : List Lex := lexOutAll st.items ++ cm st.before
 
 def StOk (st : SeqSt) : Prop := allOk st.items ∧ TrivOk st.before
 
-mutual
-/-- A comment that is attached to the previous item (same row) while comments are still pending in
-    `before` overtakes them. `orderOk` says this does not happen: `pending` = "`before` holds a
-    comment", `hasItem` = "`items` is not empty". -/
-def Cst.orderOk : Cst → Bool
-  | .leaf _ _ => true
-  | .list its _ => its.orderOk .list .none false false
-  | .set _ _ its _ => its.orderOk .set .none false false
-def Items.orderOk : Items → Mode → Prev → Bool → Bool → Bool
-  | .nil, _, _, _, _ => true
-  | .cmt g _ rest, m, prev, pending, hasItem =>
-    let inl := (match m with | .set => prev == .item | _ => prev != .none) && !containsNL g && hasItem
-    if inl then !pending && rest.orderOk m .cmt pending hasItem
-    else rest.orderOk m .cmt true hasItem
-  | .elem _ c rest, m, _, _, _ => c.orderOk && rest.orderOk m .item false true
-  | .bind _ _ _ _ _ _ v _ _ rest, m, _, _, _ => v.orderOk && rest.orderOk m .item false true
-end
-
-def File.orderOk (f : File) : Bool := f.items.orderOk .file .none false false
-
 theorem pushGap_cm (st : SeqSt) (g : Text) : cm (pushGap st g) = cm st.before := by
   unfold pushGap; split
   · rfl
@@ -402,7 +382,7 @@ theorem pushGap_ok {st : SeqSt} (h : TrivOk st.before) (g : Text) : TrivOk (push
 
 theorem canInline_eq (m : Mode) (st : SeqSt) (g : Text) :
     canInline m st g =
-      ((match m with | .set => st.prev == .item | _ => st.prev != .none) && !containsNL g && !st.items.isEmpty) := rfl
+      (prevAllowsInline m st.prev && !containsNL g && !st.items.isEmpty) := rfl
 
 /-- one comment of the loop -/
 theorem seqComment_spec (strict : Bool) (m : Mode) (st : SeqSt) (g t : Text) (ht : isCommentTok t = true)
